@@ -33,7 +33,7 @@ func (fx *FX) toSeq(env *Env, v Val) (T, bool) {
 	case VSeq:
 		return x.T, true
 	case VSlice:
-		return app(SSeq, "view", sel(env.st.H, x.Ref), x.Off, x.Len), true
+		return app(SSeq, "view", sel(fx.rH(env.st, x.Ref), x.Ref), x.Off, x.Len), true
 	}
 	return T{}, false
 }
@@ -300,7 +300,14 @@ func (fx *FX) selectField(env *Env, v Val, name string) Val {
 		if !ok {
 			break
 		}
-		r, _ := unflatten(ft, fx.loadLeaves(env.st, b.Ref, add(b.Off, num(fieldOffset(st, idx))), ft))
+		rs := env.st
+		if a, ok := fx.privByRef[b.Ref.S]; ok && !env.calleeMode {
+			if v, ok := env.st.Priv[a]; ok {
+				rs = env.st.clone()
+				rs.H, rs.Hs = v[0], v[1]
+			}
+		}
+		r, _ := unflatten(ft, fx.loadLeaves(rs, b.Ref, add(b.Off, num(fieldOffset(st, idx))), ft))
 		return r
 	case VStruct:
 		st, ok := b.Typ.Underlying().(*types.Struct)
